@@ -5,7 +5,7 @@
                                                   (applies; pinned suite at the baseline; demo passes without / fails with
                                                   the change, or the equivalence script passes) and import the confirmed
                                                   ones as seeded/Cxx-<next number> (breaking) / Cxx-r<next number> (refactor)
-Deliverables expected in <outdir>/Cxx/_seed/: change1.diff demo1.py change2.diff demo2.py refactor1.diff equiv1.py notes.txt"""
+Deliverables expected in <outdir>/Cxx/_seed/: change1.diff demo1.py change2.diff demo2.py refactor1.diff equiv1.py [refactor2.diff equiv2.py] notes.txt"""
 import json
 import os
 import re
@@ -50,9 +50,9 @@ def prompts(out):
 Your own scratch git worktree of the library is at {W} (a detached checkout of commit {head}; work ONLY inside it; never touch /repo or /verif and do not read anything under /verif or any other directory of /tmp). Python is /venv/bin/python (3.12); run things as `cd {W} && /venv/bin/python ...` so that the worktree's `mingus` package is the one imported, and use PYTHONPATH={W} for scripts that live elsewhere. The library's own test suite is run as: cd {W} && /venv/bin/python -m pytest -ra -q -p no:cacheprovider --timeout=900 --continue-on-collection-errors   (baseline on the unchanged tree: 190 passed and 1 collection error in tests/integration/test_fluidsynth.py, which is expected).
 
 Deliver, inside {W}/_seed/ (create it; write every file with your shell or editor tools):
-  1. change1.diff and change2.diff: two DIFFERENT realistic code changes (`git diff` output against the unchanged tree, applying with `git apply`) that each BREAK the property below -- the kind of mistake a maintainer could make while refactoring, optimising, "simplifying" or extending the code -- while the library still imports and the test suite above still gives exactly the baseline result. Prefer places the list of recent repairs below has touched (a partial or subtly wrong re-implementation of a repaired function is ideal), touch different functions / clauses in the two changes, keep each change small (a few lines), and do not merely revert a repair wholesale. With each, a demonstration demo1.py / demo2.py: a standalone script, run as `PYTHONPATH={W} /venv/bin/python demoK.py`, that exits 0 on the unchanged tree and exits 1 with the change applied, printing the calls, the observed and the expected result, and the clause of the property that is violated. The demonstration must use its own arithmetic for the expected values, not another library function that the change also affects.
-  2. refactor1.diff: ONE behaviour-preserving change of code the property is about (restructure a loop, rename locals, replace an idiom by an equivalent one, split or merge helpers, reorder independent statements, change a data structure for an equivalent one) of a realistic size (10-40 changed lines) that leaves every observable behaviour the property speaks about identical, with equiv1.py: a script run as `/venv/bin/python equiv1.py <dir of an unchanged checkout> <dir of the changed checkout>` that imports the two copies in two subprocesses, drives a few thousand inputs from the property's scope through both and exits 0 iff all results (values and exception types) are identical. The test suite must still give the baseline result.
-  3. notes.txt with three sections headed `## change1`, `## change2`, `## refactor1`, each with bullet lines `- What: ...`, `- Clause broken: ...` (changes) or `- Why equivalent: ...` (refactor), `- Needs: ...` (what an observer needs to do to see the breakage).
+  1. change1.diff and change2.diff: two DIFFERENT realistic code changes (`git diff` output against the unchanged tree, applying with `git apply`) that each BREAK the property below -- the kind of mistake a maintainer could make while refactoring, optimising, "simplifying" or extending the code -- while the library still imports and the test suite above still gives exactly the baseline result. Prefer functions and clauses of the property that the existing changes listed below do NOT touch yet (look through all the code the property names, including the less used entry points), and places the list of recent repairs below has touched (a partial or subtly wrong re-implementation of a repaired function is ideal); touch different functions / clauses in the two changes, keep each change small (a few lines), and do not merely revert a repair wholesale. With each, a demonstration demo1.py / demo2.py: a standalone script, run as `PYTHONPATH={W} /venv/bin/python demoK.py`, that exits 0 on the unchanged tree and exits 1 with the change applied, printing the calls, the observed and the expected result, and the clause of the property that is violated. The demonstration must use its own arithmetic for the expected values, not another library function that the change also affects.
+  2. refactor1.diff and refactor2.diff: TWO different behaviour-preserving changes (in different functions) of code the property is about (restructure a loop, rename locals, replace an idiom by an equivalent one, split or merge helpers, reorder independent statements, change a data structure for an equivalent one) of a realistic size (10-40 changed lines) that leaves every observable behaviour the property speaks about identical, each with its equivalence script equiv1.py / equiv2.py: a script run as `/venv/bin/python equivK.py <dir of an unchanged checkout> <dir of the changed checkout>` that imports the two copies in two subprocesses, drives a few thousand inputs from the property's scope through both and exits 0 iff all results (values and exception types) are identical. The test suite must still give the baseline result.
+  3. notes.txt with four sections headed `## change1`, `## change2`, `## refactor1`, `## refactor2`, each with bullet lines `- What: ...`, `- Clause broken: ...` (changes) or `- Why equivalent: ...` (refactor), `- Needs: ...` (what an observer needs to do to see the breakage).
 Check each of your deliverables yourself (apply with `git apply`, run the suite, run the demo / equivalence script, `git checkout -- .` afterwards) and leave the worktree's tracked files unmodified at the end (`git status --short` must show only `?? _seed/`). Report back one line per deliverable.
 
 Changes of this kind that exist already for this property (write different ones):
@@ -107,11 +107,12 @@ def do_import(out, props):
             for nm in ("notes.txt", "notes.md"):
                 if os.path.isfile(os.path.join(sd, nm)):
                     notes = open(os.path.join(sd, nm), encoding="utf-8").read()
-            for stem, k, refactor in (("change", 1, False), ("change", 2, False), ("refactor", 1, True)):
+            for stem, k, refactor in (("change", 1, False), ("change", 2, False), ("refactor", 1, True), ("refactor", 2, True)):
                 diff = os.path.join(sd, "%s%d.diff" % (stem, k))
                 script = os.path.join(sd, ("equiv%d.py" if refactor else "demo%d.py") % k)
                 if not (os.path.isfile(diff) and os.path.isfile(script)):
-                    print(p, stem, k, "missing")
+                    if not (refactor and k == 2):
+                        print(p, stem, k, "missing")
                     continue
                 sh("git", "-C", wt, "checkout", "--", ".")
                 log = {}
@@ -138,7 +139,7 @@ def do_import(out, props):
                 shutil.copy(script, os.path.join(d, "equiv.py" if refactor else "demo.py"))
                 text = notes_section(notes, "%s%d" % (stem, k))
                 files = sorted(set(re.findall(r"^\+\+\+ b/(\S+)", open(diff).read(), flags=re.M)))
-                meta = {"id": sid, "property": p, "kind": "refactor" if refactor else "breaking", "round": 6, "files": files,
+                meta = {"id": sid, "property": p, "kind": "refactor" if refactor else "breaking", "round": int(os.environ.get("SEED_ROUND", "7")), "files": files,
                         "summary": field(text, "What") or re.sub(r"\s+", " ", text)[:300],
                         "clause_broken": "" if refactor else field(text, "Clause broken"),
                         "needs_to_manifest": field(text, "Needs"),
